@@ -105,10 +105,10 @@ fn main() {
         ("world", "replay") => {
             let file = args.get(3).expect("ops file");
             let text = std::fs::read_to_string(file).unwrap();
-            let mut cur: Vec<world_engine::Op> = Vec::new();
+            let mut cur: Vec<(usize, world_engine::Op)> = Vec::new();
             let mut header: Option<String> = None;
             let mut stats = world_engine::Stats::default();
-            let flush = |header: &Option<String>, cur: &mut Vec<world_engine::Op>, stats: &mut world_engine::Stats| {
+            let flush = |header: &Option<String>, cur: &mut Vec<(usize, world_engine::Op)>, stats: &mut world_engine::Stats| {
                 if let Some(h) = header {
                     println!("{}", h);
                     let ops = std::mem::take(cur);
@@ -132,7 +132,14 @@ fn main() {
                     }
                     // a trace line can be replayed too: drop the recorded outcome
                     let lhs = line.split(" => ").next().unwrap();
-                    cur.push(world_engine::Op::parse(lhs));
+                    let (num, rest) = match lhs.strip_prefix('@') {
+                        Some(r) => {
+                            let (n, rest) = r.split_once(' ').expect("harness: bad op number");
+                            (n.parse().expect("harness: bad op number"), rest)
+                        }
+                        None => (usize::MAX, lhs),
+                    };
+                    cur.push((num, world_engine::Op::parse(rest)));
                 }
             }
             flush(&header, &mut cur, &mut stats);
